@@ -70,6 +70,7 @@ func init() {
 			p := a[0].(*Pointer)
 			return ex.constStr(p.Obj.Name)
 		},
+		"sort.Slice":        intrSortSlice,
 		"strings.Join":      intrStringsJoin,
 		"strings.Contains":  intrStringsContains,
 		"strings.HasPrefix": intrStringsHasPrefix,
@@ -422,6 +423,20 @@ func (ex *Exec) verifCall(fn *ssa.Function, args []Value, fr *Frame) Value {
 		return tb.Implies(args[0].(*Term), args[1].(*Term))
 	case "verifIteInt", "verifIteByte", "verifIteBool":
 		return tb.Ite(args[0].(*Term), args[1].(*Term), args[2].(*Term))
+	case "verifFieldTag":
+		// struct tag of a field, read from the types of the current source
+		iv := args[0].(*IfaceV)
+		st, ok := iv.Typ.Underlying().(*types.Struct)
+		if !ok {
+			panic(unsupported("verifFieldTag on a non-struct"))
+		}
+		name := ex.argName(args[1])
+		for i := 0; i < st.NumFields(); i++ {
+			if st.Field(i).Name() == name {
+				return ex.constStr(st.Tag(i))
+			}
+		}
+		return ex.constStr("")
 	case "verifTier":
 		return ex.i64(int64(ex.opts.Tier))
 	case "verifOpaqueID":
@@ -1223,4 +1238,31 @@ func intrJSONUnmarshal(ex *Exec, fn *ssa.Function, a []Value, fr *Frame) Value {
 		return &IfaceV{}
 	}
 	return ex.libError("json.SyntaxError")
+}
+
+// sort.Slice: insertion sort driven by the real less closure (a comparison on symbolic data forks).
+// The result is one order consistent with less; harnesses that care about ties permute their input.
+func intrSortSlice(ex *Exec, fn *ssa.Function, a []Value, fr *Frame) Value {
+	iv := a[0].(*IfaceV)
+	s, ok := iv.Val.(*SliceV)
+	if !ok {
+		panic(unsupported("sort.Slice of a non-slice"))
+	}
+	n := ex.concInt(s.Len, "sort.Slice length")
+	if n < 2 {
+		return nil
+	}
+	off := ex.concInt(s.Off, "sort.Slice offset")
+	arr := s.Arr.Val.(ArrayV)
+	less := a[1].(*FuncV)
+	for i := 1; i < n; i++ {
+		for j := i; j > 0; j-- {
+			r := ex.invoke(less, []Value{ex.i64(int64(j)), ex.i64(int64(j - 1))}, fr).(*Term)
+			if !ex.branch(r) {
+				break
+			}
+			arr[off+j], arr[off+j-1] = arr[off+j-1], arr[off+j]
+		}
+	}
+	return nil
 }
